@@ -67,6 +67,16 @@ Example C17_progress_path_of_three :
 Proof. eexists. eexists. split; [vm_compute; reflexivity|]. repeat split; vm_compute; reflexivity. Qed.
 
 
+(* the premise the tie has to check besides the WaitSlot steps: the evaluated predicate is the
+   published state.  For the variant whose evaluation may answer "blocked" on an unblocked
+   predicate (seeded change C17-r5: try_lock on a busy mutex inside the finality predicate) the
+   no-lost-wake-up statement is false: asleep, no token, unblocked, nothing pending *)
+Theorem C17_unfaithful_predicate_refuted :
+  exists s, wrun_unfaithful (winit true) unfaithful_witness = Some s /\
+            asleep_unblocked s = true /\ forall p, pending_at (pp s p) = false.
+Proof. exact unfaithful_predicate_loses_wakeup. Qed.
+
 Print Assumptions C17_no_lost_wakeup.
 Print Assumptions C17_timeout_never_needed.
 Print Assumptions C17_parked_waiter_is_woken_by_notifications_in_flight.
+Print Assumptions C17_unfaithful_predicate_refuted.
